@@ -311,18 +311,21 @@ def probe(tier, seed):
 
 
 def lean_table(rows):
+    """only seed-independent columns (booleans, strongest effect), so that the table - and the Lean build -
+    changes when the code's behaviour changes, not when the seed does"""
     L = ["-- GENERATED by harness/props_api.py from the installed networkx and /repo on every run. Do not edit.",
          "namespace Dynetx.Api", "",
          "structure Row where", "  cls : String", "  name : String", "  inherited : Bool", "  overridden : Bool", "  decorated : Bool",
-         "  listed : Bool", "  timed : Bool", "  frozen : Bool", "  calls : Nat", "  raised : Nat", "  nxni : Nat", "  effect : Nat", "  inconsistent : Nat", "  deriving Repr, DecidableEq", "",
+         "  listed : Bool", "  timed : Bool", "  frozen : Bool", "  probed : Bool", "  allRaised : Bool", "  allNxni : Bool", "  effect : Nat", "  inconsistent : Bool", "  deriving Repr, DecidableEq", "",
          "def table : List Row := ["]
     items = []
     for k in sorted(rows):
         r = rows[k]
         b = lambda x: "true" if x else "false"
         fz = r["name"].startswith("frozen:")
-        items.append('  { cls := "%s", name := "%s", inherited := %s, overridden := %s, decorated := %s, listed := %s, timed := %s, frozen := %s, calls := %d, raised := %d, nxni := %d, effect := %d, inconsistent := %d }'
-                     % (r["cls"], r["name"][7:] if fz else r["name"], b(r["inherited"]), b(r["overridden"]), b(r["decorated"]), b(r["listed"]), b(r["timed"]), b(fz), r["calls"], r["raised"], r["nxni"], r["effect"], r["inconsistent"]))
+        items.append('  { cls := "%s", name := "%s", inherited := %s, overridden := %s, decorated := %s, listed := %s, timed := %s, frozen := %s, probed := %s, allRaised := %s, allNxni := %s, effect := %d, inconsistent := %s }'
+                     % (r["cls"], r["name"][7:] if fz else r["name"], b(r["inherited"]), b(r["overridden"]), b(r["decorated"]), b(r["listed"]), b(r["timed"]), b(fz),
+                        b(r["calls"] > 0), b(r["calls"] > 0 and r["raised"] == r["calls"]), b(r["calls"] > 0 and r["nxni"] == r["calls"]), r["effect"], b(r["inconsistent"] > 0)))
     L.append(",\n".join(items))
     L += ["]", "", "end Dynetx.Api", ""]
     return "\n".join(L)
